@@ -76,8 +76,9 @@ func TestWorker(t *testing.T) {
 		t.Fatal(err)
 	}
 	out.Watch(120 * time.Second)
+	kinds := job.KindList(Kinds)
 	mk := func(i int) (*Case, *choice.Source, *choice.Source) {
-		c := &Case{Property: "C09", Engine: "simhist", Kind: Kinds[i%len(Kinds)]}
+		c := &Case{Property: "C09", Engine: "simhist", Kind: kinds[i%len(kinds)]}
 		return c, choice.New(job.Seed, fmt.Sprint("c09-ops-", i)), choice.New(job.Seed, fmt.Sprint("c09-sched-", i))
 	}
 	switch job.Mode {
